@@ -21,6 +21,12 @@ CONFIGS = {
     # until(<date condition>) left by the body's own exception / completion in the step the date fires
     'until_time': dict(B, NRoots=1, MaxActs=2, MaxScopes=1, RootOps=4, TaskOps=1,
                        Menu={'instant', 'sleep', 'leave', 'until_time', 'raise', 'do'}),
+    # a task cancelled while it is inside its own scope whose child fails in the same time step
+    'cancel_nested': dict(B, NRoots=1, MaxActs=3, MaxScopes=2, RootOps=4, TaskOps=3, Horizon=1,
+                          Menu={'instant', 'sleep', 'open', 'do', 'cancel', 'raise', 'nocatch'}),
+    # tasks that catch their cancellation and shut down gracefully; repeated cancel() during the shutdown
+    'cancel_grace': dict(B, NRoots=1, MaxActs=3, MaxScopes=1, RootOps=6, TaskOps=2, Horizon=3,
+                         Menu={'instant', 'sleep', 'open', 'do', 'do_grace', 'cancel', 'leave'}),
     # a cancellation racing with a forced close of the same task
     'cancel_close': dict(B, NRoots=1, MaxActs=3, MaxScopes=1, RootOps=5, TaskOps=2,
                          Menu={'leave', 'instant', 'open', 'do', 'cancel', 'raise'}),
@@ -35,10 +41,15 @@ def run(check, obs, labels, limit=None, invariants=INVS):
     if limit is None:
         limit = 12000 if check.tier == 'quick' else 250000
     runs = []
-    for label in labels:
+    from concurrent.futures import ThreadPoolExecutor
+
+    def gen(label):
+        return label, check.witnesses(label, CONFIGS[label], emit='EmitOps', invariants=invariants,
+                                      coverage=check.tier == 'thorough', limit=limit)
+    with ThreadPoolExecutor(3) as ex:          # the TLC runs of the configurations overlap
+        generated = list(ex.map(gen, labels))
+    for label, ws in generated:
         consts = CONFIGS[label]
-        ws = check.witnesses(label, consts, emit='EmitOps', invariants=invariants,
-                             coverage=check.tier == 'thorough')
         runs += [(p, t, consts['NRoots']) for p, t in usimrun.replay(check, ws, consts, limit=limit)]
     for idx, clause, pos in check.validate(obs, [r[1] for r in runs]):
         check.report(clause, runs[idx][0], runs[idx][1], pos, extra={'NRoots': runs[idx][2]})
